@@ -707,6 +707,8 @@ impl Space {
         } else if n < self.end {
             let k = (n - self.g) as usize;
             json!({"phase": "G mean edit distance of two pairs", "first_pair": [&self.s2[k / self.s2.len()], &self.s2[k % self.s2.len()]], "second_pair": "every pair of strings with at most 2 symbols", "grid": "use_graphemes x normalized"})
+        } else if n < self.end + 200 {
+            json!({"phase": "H merged and split words", "content_index": n - self.end, "input_and_prediction": "every pair of spacings of the content", "target": "every spacing (content up to 4 characters) or the input and the prediction", "grid": "use_graphemes x beta x sequence_averaged"})
         } else {
             json!({"error": "no such unit", "units": self.end})
         }
@@ -796,6 +798,29 @@ fn main() {
     run.assumptions.push("refs::edit_distance is the reference metric of C12".into());
 
     let n = sp.all.len();
+    // ---- phase H: merged and split words. Input and prediction are two spacings of the same content
+    // (the prediction only moves word boundaries), up to one symbol more than phase A's strings; the
+    // target is the input, the prediction, or every third spacing. Units follow all other phases.
+    {
+        let contents = sequences(2, run.pick(5, 6));
+        let spacings = |w: &Vec<usize>| -> Vec<String> { (0..(1u32 << w.len().saturating_sub(1))).map(|b| inner_gap_string(w, b)).collect() };
+        for (ci, w) in contents.iter().enumerate() {
+            if w.len() < 2 || !run.unit(sp.end + ci as u64) {
+                continue;
+            }
+            let sps = spacings(w);
+            for i in &sps {
+                for p in &sps {
+                    let third: Vec<&String> = if w.len() <= 4 { sps.iter().collect() } else { vec![i, p] };
+                    for t in third {
+                        for g in [false, true] {
+                            eval_single(&mut run, Kind::Spelling, [i.as_str(), p.as_str(), t.as_str()], g, true);
+                        }
+                    }
+                }
+            }
+        }
+    }
     // ---- phase A
     for ii in 0..n {
         for pi in 0..n {
